@@ -46,10 +46,17 @@ Lemma lift2_rot (f g : val -> val -> val) :
   forall x y z, lift2 f x (lift2 g y z) = lift2 g (lift2 f x y) z.
 Proof. intros H x y z. destruct x, y, z; cbn; try reflexivity. rewrite H. reflexivity. Qed.
 
+(* string concatenation is associative (text and NULL; a number anywhere puts both sides outside the model) *)
+Lemma concat_concat x y z : sql_ev SConcat x (sql_ev SConcat y z) = sql_ev SConcat (sql_ev SConcat x y) z.
+Proof.
+  destruct x as [[|?|?|s]|? ?|], y as [[|?|?|t]|? ?|], z as [[|?|?|u]|? ?|]; cbn; try reflexivity.
+  rewrite app_assoc. reflexivity.
+Qed.
+
 (* every pair of [reassoc_ok] is a rotation law of the engine semantics *)
 Theorem reassoc_ok_sound : forall p, pair_in p reassoc_ok = true -> rot_ok sop sv sql_ev p.
 Proof.
   intros [o o2] H. unfold rot_ok. cbn [fst snd].
-  destruct o, o2; try discriminate H; cbn [sql_ev]; apply lift2_rot.
+  destruct o, o2; try discriminate H; try (apply concat_concat); cbn [sql_ev]; apply lift2_rot.
   - apply or_or. - apply and_and. - apply add_add. - apply add_sub. - apply mul_mul.
 Qed.
